@@ -38,7 +38,7 @@ def _extension():
         else:
             bound = ext.FromParamsBound([sym.int(f"t{i}.idx{j}", 0, 1) for j in range(sym.concretize(sym.int(f"t{i}.nidx", 0, 2)))])
         tds.append(e.add_type_def(ext.TypeDef(f"T{i}", sym.str(f"t{i}.descr", 3), params, bound)))
-    no = sym.concretize(sym.int("n_ops", 0, P(1, 2)))
+    no = sym.concretize(sym.int("n_ops", 0, P(1, 2 if nt == 0 else 1)))   # thorough: two type definitions OR two operation definitions (the product does not finish)
     for i in range(no):
         binary = sym.concretize(sym.bool(f"o{i}.binary"))
         if binary and sym.concretize(sym.bool(f"o{i}.no_sig")):
@@ -71,7 +71,7 @@ def _same_sig(a, b):
 
 
 @lemma("C10", unbounded="descriptions (strings), misc values / nat arguments / parameter bounds (integers), type bounds (symbolic)",
-       bounds="extensions with 0..1 (quick) / 0..2 (thorough) type definitions (explicit or from-params bound with 0..2 symbolic indices), 0..1 / 0..2 operation definitions "
+       bounds="extensions with 0..1 (quick) / 0..2 (thorough) type definitions (explicit or from-params bound with 0..2 symbolic indices), 0..1 / 0..2 operation definitions (thorough: two of them only without type definitions) "
               "(monomorphic / polymorphic / binary with or without signature, with or without misc), 0..1 values; no lowering functions",
        outside="lowering functions (excluded by the quantifier)", opts={"max_paths": 200000, "timeout_s": 2000})
 def extension_roundtrip():
